@@ -37,6 +37,20 @@ def roundtrip(c, keys, path):
         problems.append({'similarities_before': before, 'similarities_after': after})
     if dict(d.metadata) != dict(c.metadata):
         problems.append({'metadata_before': dict(c.metadata), 'metadata_after': dict(d.metadata)})
+    # second generation: the container that was read back gets further metadata (now `created` is no longer the last
+    # entry of the header line) and further writes, is written and read again
+    extra = [(k + '2', v) for k, v in list(c.metadata.items()) if k != 'created'][:3]
+    for k, v in extra:
+        d.metadata[k] = v
+    if keys:
+        d.set_similarity(keys[0], keys[-1], 0.5)
+    d.to_csv(path)
+    e = SimilarityContainer.from_csv(path)
+    before2, after2 = read_all(d, keys), read_all(e, keys)
+    if before2 != after2:
+        problems.append({'similarities_before': before2, 'similarities_after': after2, 'generation': 2})
+    if dict(e.metadata) != dict(d.metadata):
+        problems.append({'metadata_before': dict(d.metadata), 'metadata_after': dict(e.metadata), 'generation': 2})
     return problems
 
 
